@@ -77,9 +77,21 @@ func execSW(in In, em *Emitter) {
 	var base int64
 	rel := func(x int64) int64 { return num(x - base) }
 	const maxInt64 = int64(^uint64(0) >> 1)
+	// "End frame" histories exercise the far end of a section that is longer than TLC's integers (AtToWriter from
+	// a small offset, NewSectionWriter with n up to MaxInt64): everything is logged as if the section started
+	// 2^30 bytes before its end (shift = real size - 2^30).  The machine is translation invariant and the
+	// history never touches a position within 2^29 of the pretended start, so the pretended and the real
+	// section behave alike; the real cursor starts far below, therefore the first operation is an absolute Seek.
+	var endFrame, needAbsSeek bool
+	var shift int64
+	const far = int64(1) << 30
 	for _, op := range in.L("ops") {
 		k := op.S("k")
+		ek := k
 		ev := J{}
+		if needAbsSeek && !(k == "Seek" && (op.Int("w") == 0 || op.Int("w") == 2)) {
+			fatalf("sw: an end-frame history must start with an absolute Seek")
+		}
 		under.calls = nil
 		under.acc, under.fail = 0, false
 		if op.has("acc") {
@@ -93,6 +105,14 @@ func execSW(in In, em *Emitter) {
 			b, sz := op.I("base"), op.I("n")
 			base = b
 			ev["n"] = sz
+			if op.has("ef") {
+				if sz < far {
+					fatalf("sw: end frame needs a section of at least 2^30 bytes")
+				}
+				endFrame, needAbsSeek, shift, ek = true, true, sz-far, "NewEnd"
+				base = b + shift
+				ev["n"] = far
+			}
 			abn = guard(func() {
 				s := iohelper.NewSectionWriter(under, b, sz)
 				w, full, sized = s, s, s
@@ -105,6 +125,14 @@ func execSW(in In, em *Emitter) {
 				room = 1 << 30
 			}
 			ev["room"] = room
+			if op.has("ef") {
+				if maxInt64-b < far {
+					fatalf("sw: end frame needs a section of at least 2^30 bytes")
+				}
+				endFrame, needAbsSeek, shift, ek = true, true, maxInt64-b-far, "NewEnd"
+				base = b + shift
+				ev["n"] = far
+			}
 			abn = guard(func() {
 				w = iohelper.AtToWriter(under, b)
 				full, _ = w.(swAll)
@@ -121,7 +149,10 @@ func execSW(in In, em *Emitter) {
 			p, off := op.Bs("p"), op.I("off")
 			// a relative offset beyond 2^30 lies beyond the end of every bounded section the generator builds
 			// (length < 2^29): it is logged as 2^30, which says exactly that, and stays inside TLC's integers
-			loff := off
+			loff := off - shift
+			if endFrame && loff < 1<<29 {
+				fatalf("sw: end-frame WriteAt offset too far from the end")
+			}
 			if loff > 1<<30 {
 				loff = 1 << 30
 			}
@@ -133,12 +164,25 @@ func execSW(in In, em *Emitter) {
 			}
 			off, wh := op.I("off"), op.Int("w")
 			ev["off"], ev["w"] = off, wh
+			if endFrame {
+				if wh == 0 {
+					ev["off"] = off - shift
+				}
+				if (wh == 0 && off-shift < 1<<29) || (wh == 2 && off < -(1<<29)) || (wh == 1 && (off < -(1<<28) || off > 1<<28)) {
+					fatalf("sw: end-frame Seek too far from the end")
+				}
+				needAbsSeek = false
+			}
 			abn = guard(func() { n, err = full.Seek(off, wh) })
+			if endFrame && err == nil {
+				n -= shift // positions relative to the pretended start
+			}
 		case "Size":
 			if sized == nil {
 				continue
 			}
 			abn = guard(func() { n = sized.Size() })
+			n -= shift
 		default:
 			fatalf("sw: unknown op %q", k)
 		}
@@ -153,17 +197,21 @@ func execSW(in In, em *Emitter) {
 			c["off"] = rel(c["off"].(int64))
 		}
 		ev["under"] = calls
-		if c, ok := swCursor(w); ok {
+		if c, ok := swCursor(w); ok && ek != "NewEnd" {
 			ev["cur"] = rel(c) // the cursor itself, through the verif hook (besides the Seek probes)
 		} else {
 			ev["cur"] = -1
 		}
-		em.Emit(k, ev)
+		em.Emit(ek, ev)
 		em.Calls(1)
 		if abn != "" {
 			return
 		}
-		if c, ok := swCursor(w); ok && (c-base > 1<<29 || c-base < -(1<<29)) {
+		if c, ok := swCursor(w); ok && endFrame && ek != "NewEnd" {
+			if c-base < 1<<29 || c-base > far+1<<20 {
+				return // too far from the end for the pretended frame
+			}
+		} else if ok && !endFrame && (c-base > 1<<29 || c-base < -(1<<29)) {
 			return // the history leaves the range the trace specification models (|offsets| < 2^30): end it here
 		}
 	}
@@ -184,6 +232,10 @@ func genC18(g *Gen) {
 	}
 	nh := g.N(1500, 40000)
 	for h := 0; h < nh; h++ {
+		if r.Intn(8) == 0 {
+			genC18End(g, buf)
+			continue
+		}
 		base := bases[r.Intn(len(bases))]
 		size := sizes[r.Intn(len(sizes))]
 		at := r.Intn(5) == 0
@@ -353,6 +405,121 @@ func genC18(g *Gen) {
 		ops = append(ops, J{"k": "Seek", "off": 0, "w": 1})
 		g.Case("sw", J{"ops": ops})
 	}
+}
+
+// genC18End: a history at the far end of a section longer than 2^30 bytes (see execSW, "end frame").
+func genC18End(g *Gen, buf func(int) []int64) {
+	r := g.R
+	const maxInt64 = int64(^uint64(0) >> 1)
+	var base, S int64
+	var ops []J
+	at := r.Intn(2) == 0
+	if at {
+		base = []int64{0, 3, 4096, 1 << 40, maxInt64 - 1<<30, maxInt64 - 1<<31, 1}[r.Intn(7)]
+		S = maxInt64 - base
+		ops = append(ops, J{"k": "NewAt", "base": base, "ef": true})
+	} else {
+		base = []int64{0, 1, 7, 1 << 20}[r.Intn(4)]
+		S = []int64{maxInt64 - base, 1 << 62, 1 << 40, 1 << 31, 1 << 30, 1<<32 + 5, 1<<31 - 1}[r.Intn(7)]
+		ops = append(ops, J{"k": "New", "base": base, "n": S, "ef": true})
+	}
+	top := base+S == maxInt64 // positions beyond the end do not exist
+	d0 := int64(r.Intn(100))
+	if r.Intn(2) == 0 {
+		ops = append(ops, J{"k": "Seek", "off": -d0, "w": 2})
+	} else {
+		ops = append(ops, J{"k": "Seek", "off": S - d0, "w": 0})
+	}
+	room := d0 // bytes between the (estimated) cursor and the end; only steers the inputs
+	env := func(op J, l int) J {
+		if r.Intn(5) == 0 {
+			op["acc"] = r.Intn(l + 2)
+			op["fail"] = true
+		} else {
+			op["acc"] = 0
+			op["fail"] = false
+		}
+		return op
+	}
+	n := 3 + r.Intn(g.N(12, 20))
+	for i := 0; i < n; i++ {
+		switch x := r.Intn(100); {
+		case x < 30:
+			l := r.Intn(12)
+			switch r.Intn(5) {
+			case 0:
+				if room >= 0 && room <= 70 {
+					l = int(room)
+				}
+			case 1:
+				if room >= 0 && room <= 70 {
+					l = int(room) + 1 + r.Intn(3)
+				}
+			case 2:
+				if room >= 1 && room <= 70 {
+					l = int(room) - 1
+				}
+			}
+			op := env(J{"k": "Write", "p": buf(l)}, l)
+			ops = append(ops, op)
+			if op["fail"] == false {
+				room -= int64(l)
+				if room < 0 {
+					room = 0
+				}
+			}
+		case x < 60:
+			d := int64(r.Intn(84)) - 3 // distance of the offset from the end; negative: beyond it
+			if r.Intn(6) == 0 {
+				d = []int64{0, 1, 2, 5, -1, S - maxInt64}[r.Intn(6)]
+			}
+			l := r.Intn(12)
+			if d >= 0 && r.Intn(3) > 0 {
+				l = int(d) + r.Intn(5) - 2 // ends around the end of the section
+				if l < 0 {
+					l = 0
+				}
+			}
+			ops = append(ops, env(J{"k": "WriteAt", "p": buf(l), "off": S - d}, l))
+		case x < 85:
+			wh := []int{0, 1, 2, 0, 1, 2, 3, -1}[r.Intn(8)]
+			var off int64
+			switch wh {
+			case 0:
+				d := int64(r.Intn(100))
+				if !top && r.Intn(4) == 0 {
+					d = -int64(r.Intn(5))
+				}
+				off = S - d
+				room = d
+			case 2:
+				d := int64(r.Intn(100))
+				if !top && r.Intn(4) == 0 {
+					d = -int64(r.Intn(5))
+				}
+				off = -d
+				room = d
+			case 1:
+				off = int64(r.Intn(24)) - 12
+				if top && off > 0 {
+					off = -off // the estimate of the cursor is not exact and positions beyond MaxInt64 do not exist
+				}
+				room -= off
+			default:
+				off = int64(r.Intn(5))
+			}
+			ops = append(ops, J{"k": "Seek", "off": off, "w": wh})
+		case x < 90:
+			ops = append(ops, J{"k": "Size"})
+		default:
+			ops = append(ops, J{"k": "Seek", "off": 0, "w": 1})
+		}
+		if r.Intn(3) == 0 {
+			ops = append(ops, J{"k": "Seek", "off": 0, "w": 1})
+		}
+	}
+	ops = append(ops, J{"k": "Seek", "off": 0, "w": 1})
+	g.Case("sw", J{"ops": ops})
 }
 
 func min64(a, b int64) int64 {
